@@ -103,7 +103,7 @@ def run_scenario(scenario, seed, monitors=(), trace=False, settle=None, worker_h
                 parts = sm.split(":")
                 res.exec_arns[ex["name"]] = ":".join(parts[:5] + ["execution", parts[6], ex["name"]])
                 res.start_calls.append((ex, {"status": 200, "json": {"executionArn": res.exec_arns[ex["name"]]},
-                                             "t0": sim.now, "raw": True}))
+                                             "t0": sim.now, "step0": sim.steps, "raw": True}))
                 return
             params = {"stateMachineArn": res.sm_arns[ex["machine"]], "input": json.dumps(ex["input"])}
             if ex.get("name") is not None:
